@@ -10,6 +10,7 @@ import (
 	"strconv"
 	"strings"
 	"sync"
+	"time"
 
 	"github.com/miekg/dns"
 )
@@ -40,7 +41,15 @@ type DNSServer struct {
 }
 
 func NewDNSServer(zones map[string]DNSZone) (*DNSServer, error) {
-	pc, err := net.ListenPacket("udp4", "127.0.0.1:0")
+	var pc net.PacketConn
+	var err error
+	for i := 0; i < 300; i++ { // ride out a momentarily exhausted port range
+		pc, err = net.ListenPacket("udp4", "127.0.0.1:0")
+		if err == nil {
+			break
+		}
+		time.Sleep(100 * time.Millisecond)
+	}
 	if err != nil {
 		return nil, err
 	}
